@@ -283,6 +283,17 @@ static void check_stored(timg *d, const uint8_t *exp, const uint8_t *care, int d
     if (off < 0) return;
     int px = run_pixel_of(d, off, dx0, n);
     char key[64];
+    if (d->bpp < 8) {
+        /* several pixels share the byte: name the one that differs (it may be a neighbour of the run: then it is a clobber) */
+        long rel = off - GUARD - (long)d->stride;
+        if (rel >= 0 && rel < d->stride) {
+            int first = (int)(rel * 8 / d->bpp); px = -1;
+            for (int q = first; q < first + 8 / d->bpp; q++) {
+                uint32_t cm = care ? c10_get_px(care + GUARD + d->stride, d->bpp, q) : 0xffffffffu;
+                if ((c10_get_px(exp + GUARD + d->stride, d->bpp, q) ^ c10_get_px(ti_row(d, 1), d->bpp, q)) & cm) { px = (q >= dx0 && q < dx0 + n) ? q : -1; break; }
+            }
+        }
+    }
     if (px >= 0) {
         int j = px - dx0;
         snprintf(key, sizeof key, "c10-%s-%s", route, F->name);
@@ -473,14 +484,15 @@ static void lay_case(uint64_t idx, void *vctx)
         break;
     }
     case R_STOREF: {
-        /* per value three float encodings of every channel: k/(2^n-1), the lower edge k/2^n of the bucket
-         * and the largest float below the upper edge (k+1)/2^n */
-        int n = 3 * N;
+        /* per value four float encodings of every channel: k/(2^n-1), the lower edge k/2^n of the bucket, the largest float below
+         * the upper edge (k+1)/2^n, and - narrowing saturates - a value below 0 where k is 0 / above 1 where k is the maximum */
+        int n = 4 * N;
         float *src = malloc(sizeof *src * 4 * n); uint64_t *desc = malloc(sizeof *desc * n);
         for (int i = 0; i < N; i++)
-            for (int e = 0; e < 3; e++) {
-                float *p = src + 4 * (3 * i + e);
+            for (int e = 0; e < 4; e++) {
+                float *p = src + 4 * (4 * i + e);
                 static const int memch[4] = { CH_R, CH_G, CH_B, CH_A };
+                static const float below[6] = { -0.25f, -1e-6f, -3.0f, -0.00390625f, -1.0f, -65536.0f }, above[6] = { 1.5f, 1.0000001f, 2.0f, 255.0f, 3.0e9f, 1.00390625f };
                 for (int q = 0; q < 4; q++) {
                     int ch = memch[q];
                     if (!L.w[ch]) { p[q] = (float)((vf_mix(9, vals[i] + q) & 0xff) / 255.0); continue; }
@@ -488,9 +500,10 @@ static void lay_case(uint64_t idx, void *vctx)
                     double two_n = (double)(1u << L.w[ch]);
                     if (e == 0) p[q] = (float)((double)k / (double)m);
                     else if (e == 1) p[q] = (float)((double)k / two_n);
-                    else p[q] = nextafterf((float)((double)(k + 1) / two_n), 0.0f);
+                    else if (e == 2) p[q] = nextafterf((float)((double)(k + 1) / two_n), 0.0f);
+                    else p[q] = k == 0 ? below[(vals[i] + (uint32_t)q) % 6] : k == m ? above[(vals[i] + (uint32_t)q) % 6] : (float)((double)k / (double)m);
                 }
-                desc[3 * i + e] = ((uint64_t)e << 32) | vals[i];
+                desc[4 * i + e] = ((uint64_t)e << 32) | vals[i];
             }
         for (int bgi = 0; bgi < 2 && !vf_failed(); bgi++) {
             timg s, d; int bg = bgi ? 0xff : 0x00;
@@ -506,7 +519,7 @@ static void lay_case(uint64_t idx, void *vctx)
                 if (L.w[CH_G]) px |= c10_float_to_n(p[1], L.w[CH_G]) << L.sh[CH_G];
                 if (L.w[CH_B]) px |= c10_float_to_n(p[2], L.w[CH_B]) << L.sh[CH_B];
                 if (L.w[CH_A]) px |= c10_float_to_n(p[3], L.w[CH_A]) << L.sh[CH_A];
-                if (px != (vals[src_index(mode, n, j) / 3] & L.dmask)) { vf_harderr("float bucket model disagrees with itself for %s", F->name); }
+                if (px != (vals[src_index(mode, n, j) / 4] & L.dmask)) { vf_harderr("float bucket model disagrees with itself for %s", F->name); }
                 c10_set_px(exp + GUARD + d.stride, bpp, xo + j, px, L.pmask);
                 c10_set_px(care + GUARD + d.stride, bpp, xo + j, L.dmask, L.pmask);
             }
@@ -523,7 +536,7 @@ static void lay_case(uint64_t idx, void *vctx)
     }
     acc_flush();
     if (!vf_in_confirm) {
-        uint64_t per = (V->route == R_STORE8 && c->vm != VM_FULL) || V->route == R_STOREF ? 6 : V->route == R_SELF ? 4 : 1;
+        uint64_t per = (V->route == R_STORE8 && c->vm != VM_FULL) || V->route == R_STOREF ? 8 : V->route == R_SELF ? 4 : 1;
         vf_count_eval((uint64_t)N * per);
         vf_count_nontrivial(nontriv * per);
         ST_ADD(conv[V->route], (uint64_t)N * per); ST_ADD(by_mode[mode], (uint64_t)N * per); ST_ADD(by_acc[acc], (uint64_t)N * per);
